@@ -49,6 +49,9 @@ func main() {
 		err = runC16()
 	case "C06rec":
 		err = runC06rec()
+	case "selfprobe": // child of the self-embedding families (selfemb.go)
+		selfProbe()
+		return
 	default:
 		err = fmt.Errorf("property %s is not served by this harness", *prop)
 	}
